@@ -25,11 +25,11 @@ FixEtc(fmt, b) ==
                             IN IF k = co + 5 /\ ~EtcValid(b, co) THEN b[k] - 2 ELSE b[k]]
 Tex(name, w, h, fmt, seed) ==
   [name |-> name, w |-> w, h |-> h, fmt |-> fmt, pal |-> <<>>,
-   payload |-> FixEtc(fmt, [k \in 1..PayloadSize(fmt, w, h) |-> PatByte(seed, k)])]
+   payload |-> Tup(FixEtc(fmt, Tup([k \in 1..PayloadSize(fmt, w, h) |-> PatByte(seed, k)])))]
 PalTex(w, h, n, seed) ==
   [name |-> <<>>, w |-> w, h |-> h, fmt |-> CI8,
-   payload |-> [k \in 1..CI8PayloadSize(w, h) |-> PatByte(seed, k) % n],
-   pal |-> [k \in 1..(2 * n) |-> PatByte(seed + 1, k + 300)]]
+   payload |-> Tup([k \in 1..CI8PayloadSize(w, h) |-> PatByte(seed, k) % n]),
+   pal |-> Tup([k \in 1..(2 * n) |-> PatByte(seed + 1, k + 300)])]
 
 \* names: ASCII, and with the hand-checked non-ASCII characters (incl. trail byte 0x5C)
 NmA == <<116, 101, 120, 95, 97>>                 \* tex_a
@@ -68,8 +68,8 @@ ASSUME \A c \in {"ctpk", "bch", "cgfx"} : \A len \in NameLens : Len(NameBytes(c,
 \* ---- adversarial lists: the textures of one file share every parameter (format, size, payload
 \* length) and differ in content only, so that anything carried over from one texture to the
 \* next (stale buffer, cached table, wrong index) shows in the pixels
-SameShape(fmt, w, h, names) == [i \in 1..Len(names) |-> Tex(names[i], w, h, fmt, 40 + 3 * i)]
-LenNames(c, lens) == [i \in 1..Len(lens) |-> LName(c, lens[i])]
+SameShape(fmt, w, h, names) == Tup([i \in 1..Len(names) |-> Tex(names[i], w, h, fmt, 40 + 3 * i)])
+LenNames(c, lens) == Tup([i \in 1..Len(lens) |-> LName(c, lens[i])])
 ShortNames == << NmA, NmB, NmC, NmD, NmE, NmF >>
 
 Lists3DS(c) ==
@@ -97,17 +97,17 @@ P6 == PalTex(16, 8, 40, 16)
 \* palette image with separately seeded indices and palette
 PalTex2(w, h, n, si, sp) ==
   [name |-> <<>>, w |-> w, h |-> h, fmt |-> CI8,
-   payload |-> [k \in 1..CI8PayloadSize(w, h) |-> PatByte(si, k) % n],
-   pal |-> [k \in 1..(2 * n) |-> PatByte(sp, k + 300)]]
+   payload |-> Tup([k \in 1..CI8PayloadSize(w, h) |-> PatByte(si, k) % n]),
+   pal |-> Tup([k \in 1..(2 * n) |-> PatByte(sp, k + 300)])]
 ListsTpl ==
   << <<>>, <<P1>>, <<P2, P3, P4>>, <<P1, P2, P3, P4, P6, P3>>,
      \* same shape and palette LENGTH throughout: same indices / other palette, same palette /
      \* other indices, both different
      << PalTex2(8, 4, 16, 21, 31), PalTex2(8, 4, 16, 21, 32), PalTex2(8, 4, 16, 22, 32), PalTex2(8, 4, 16, 23, 33) >>,
-     [i \in 1..6 |-> PalTex2(5, 3, 256, 50 + i, 70 + i)] >>
+     Tup([i \in 1..6 |-> PalTex2(5, 3, 256, 50 + i, 70 + i)]) >>
   \o (IF Quick THEN <<>>
       ELSE << <<P4, P6>>, <<P5, P1, P3, P2>>, <<P6, P4, P3, P2, P1>>, <<P4, P4>>,
-              [i \in 1..6 |-> PalTex2(9, 5, 3, 80, 90 + i)], [i \in 1..5 |-> PalTex2(1, 1, 1, 5, 100 + 7 * i)],
+              Tup([i \in 1..6 |-> PalTex2(9, 5, 3, 80, 90 + i)]), Tup([i \in 1..5 |-> PalTex2(1, 1, 1, 5, 100 + 7 * i)]),
               \* palette lengths alternate: a stale palette of the right length two images back
               << PalTex2(8, 4, 16, 24, 34), PalTex2(8, 4, 40, 25, 35), PalTex2(8, 4, 16, 26, 36), PalTex2(8, 4, 40, 27, 37) >> >>)
 
@@ -190,10 +190,11 @@ Emit ==
     LET c == k[1]
         v == Lists(c)[k[2]]
         p == Placements(c)[k[3]]
-    IN PrintT("G " \o ToJson([id |-> k, c |-> c, v |-> v, p |-> p, file |-> File(c, v, p),
+        f == File(c, v, p)
+        ext == Extents(c, v, p)
+    IN PrintT("G " \o ToJson([id |-> k, c |-> c, v |-> v, p |-> p, file |-> f,
                              exp |-> [i \in 1..Len(v) |-> [name |-> IF c = "tpl" THEN <<>> ELSE v[i].name,
                                                            w |-> v[i].w, h |-> v[i].h]],
-                             ext |-> Extents(c, v, p),
-                             min_ok |-> MinOk(Extents(c, v, p)), magic |-> ChecksMagic(c),
-                             reject_by |-> SetToSeq({ r \in Containers \ {c} : ChecksMagic(r) /\ ~MagicOK(r, File(c, v, p)) })]))
+                             ext |-> ext, min_ok |-> MinOk(ext), magic |-> ChecksMagic(c),
+                             reject_by |-> SetToSeq({ r \in Containers \ {c} : ChecksMagic(r) /\ ~MagicOK(r, f) })]))
 =============================================================================
